@@ -614,13 +614,14 @@ impl<'t, 'd> Gen<'t, 'd> {
             let fname = if is_base { self.fresh("b") } else if self.t.chance(1, 10) && !matches!(ty, Ty::Unk(_)) && size > 0 { "_".to_string() } else { format!("f{fi}") };
             // an unnamed field of a zero-length array type is dropped: fine. A *named* zero-length array is
             // not emitted either (generator restriction, DESIGN §2.1): never generated (arrays have >= 1 element)
+            let fname_is_unnamed = fname == "_";
             fields.push(Field {
                 vis: if is_base && self.prog.mods.len() > 1 { true } else { self.vis() },
                 name: fname,
                 ty,
                 addr,
                 base: is_base,
-                doc: if is_base { vec![] } else { self.doc(2) },
+                doc: if is_base || fname_is_unnamed { vec![] } else { self.doc(2) },
             });
             cursor = offset + size;
             max_align = max_align.max(eff_align);
@@ -831,11 +832,12 @@ impl<'t, 'd> Gen<'t, 'd> {
                 break;
             }
             used.insert(v);
+            let vdoc = if self.t.chance(1, 6) { self.doc(2) } else { vec![] };
             variants.push(Variant {
                 name: format!("V{k}"),
                 value,
                 default: false,
-                doc: vec![],
+                doc: vdoc,
             });
             next = v + 1;
         }
@@ -948,12 +950,13 @@ impl<'t, 'd> Gen<'t, 'd> {
         let a = self.address();
         let addr = Some(self.num(a));
         let vis = self.vis();
+        let doc = if self.t.chance(1, 4) { self.doc(2) } else { vec![] };
         self.prog.mods[m].ext_vals.push(ExtVal {
             vis,
             name,
             ty,
             addr,
-            doc: vec![],
+            doc,
         });
     }
 
